@@ -288,6 +288,10 @@ struct Session {
     if (pool_saw_refusal) note += " [this pool object refused a request before its last reset()]";
     g_viol.push_back({key, what + (reused_pool ? " (pool object reused after reset())" : " (fresh pool)") + note +
                                " adds_so_far=" + std::to_string(n_adds) + " history_tail[size,bytes,offset,kind]=" + describe_hist()});
+    // also written at once: a driver that dies later (a corrupted pool can allocate without bound until the RSS limit
+    // ends the process) must not take the counterexamples it has already witnessed with it
+    printf("{\"early_violation\":{\"key\":%s,\"what\":%s}}\n", jstr(g_viol.back().key).c_str(), jstr(g_viol.back().what).c_str());
+    fflush(stdout);
   }
 
   void log(const Item& it, int64_t off, char kind) {
